@@ -46,7 +46,9 @@ func init() {
 			"(ii) kept signer: 64 calls through ONE Signer, the caller keeping one *rsa.PSSOptions value edited in place, one digest buffer refilled in place, overwriting the bytes the previous call returned, honest/corrupted/failed responses and PSS-SHA-256/other options in PRNG order; " +
 			"(iii) Sign calls in flight together: groups of 3-6 calls through one Signer / one Manager / all their own, held inside AsymmetricSign by the model until every call of the group has sent its request or returned, then each answered with its own planned response (calls told apart by a context value); " +
 			"(iv) lifecycle calls in flight together: groups of 2-3 calls (own Manager, own world, identical resource names), a PRNG scheduler gives the turn at every RPC so that exactly one runs at a time and the interleaving is a function of the seed; " +
-			"(v) signatures whose CRC32C is forced to 0x00000001, 0x7fffffff, 0x80000000, 0x80000001, 0xfffffffe, 0xffffffff with the complete probe family. " +
+			"(v) signatures whose CRC32C is forced to 0x00000001, 0x7fffffff, 0x80000000, 0x80000001, 0xfffffffe, 0xffffffff with the complete probe family; " +
+			"(vi) answer sequences within ONE call of Sign: the n-th AsymmetricSign RPC of the call is answered by the n-th step of a script (every ordered pair of 17 answer kinds {honest; signature bit; checksum bit; checksum absent; checksum+2^32; truncated; digest/data/both unconfirmed; digest/data checksum lost; another digest signed and said so; consistent replacement; empty answer; 3 error classes} x tail {last step repeats; honest afterwards}, and drawn scripts of 3-5 steps, a sixth of them with other options), every exchange recorded; " +
+			"a returned signature => PSS/SHA-256 options and the returned bytes are the signature of SOME answer delivered during the call that is intact and confirmed (asking again and the choice among acceptable answers are not judged). " +
 			"non-trivial = a scenario whose fault-free trace reached the entry point's RPCs (faulted runs: the fault position was reached); distinct = (entry, keys, first key's version count, state mix, pagination, fault method:class or none, outcome) cells",
 		Assumptions: []string{
 			"the model only produces listings AIP-158 allows: a page may be shorter than requested (also empty) while a token is present; only an empty next_page_token ends a listing; total_size is the size of the whole collection; page tokens are opaque and validated",
@@ -1000,6 +1002,14 @@ func buildCases(thorough bool) []caseDef {
 	add("signconc", 6, 24)
 	add("session", 48, 240)
 	add("lifeconc", 12, 48)
+	// answer sequences within one call of Sign (appended in the fourth round)
+	scriptLens := []int{1, 32, 256}
+	if thorough {
+		scriptLens = []int{1, 2, 32, 32, 255, 256, 256, 512, 1, 32, 256, 512}
+	}
+	for _, l := range scriptLens {
+		cs = append(cs, caseDef{kind: "signscript", sigLen: l})
+	}
 	return cs
 }
 
@@ -1008,6 +1018,7 @@ func run(c *core.Ctx) {
 	st := &stats{faultsReached: map[string]int{}, modesReached: map[string]int{}}
 	sst := &signStats{}
 	ast := newAudStats()
+	ss := &scriptStats{}
 	ranLife, ranSign, ranSlow := false, false, false
 	for i, cd := range cases {
 		if !c.Mine(i) {
@@ -1032,6 +1043,10 @@ func run(c *core.Ctx) {
 			c.Begin(i, fmt.Sprintf("signconc#%d: %d groups of 3-6 calls of Sign in flight together", i, signGroupsPerCase), eSign, nil)
 			signConcCase(c, i, r, sst, ast)
 			ast.ran["signconc"] = true
+		case "signscript":
+			c.Begin(i, fmt.Sprintf("signscript#%d: every ordered pair of answer kinds and %d drawn scripts of 3-5 answers to the successive RPCs of one call of Sign, %d-byte signatures", i, scriptRandomPerCase, cd.sigLen), eSign, nil)
+			signScriptCase(c, i, r, cd.sigLen, sst, ss)
+			ast.ran["signscript"] = true
 		case "session":
 			c.Begin(i, fmt.Sprintf("session#%d: lifecycle calls through one kept Manager over one persistent world", i), "Manager.*(kept)", nil)
 			sessionCase(c, i, r, ast)
@@ -1077,6 +1092,8 @@ func run(c *core.Ctx) {
 		c.Floor(f.name, ast.ran[f.dim] && ast.get(f.counter) > 0)
 		c.Count("audit/"+f.counter, ast.get(f.counter))
 	}
+	c.Floor("answer sequences: a signature was returned from an intact, confirmed answer", ast.ran["signscript"] && ss.returned > 0)
+	c.Floor("answer sequences: calls whose first answer was damaged or unconfirmed were refused", ast.ran["signscript"] && ss.refused > 0)
 	c.Floor("sign: a genuine signature with a forced boundary checksum value was returned", ast.ran["forced"] && sst.forcedGenuine > 0)
 }
 
